@@ -574,6 +574,11 @@ def call_builtin(ex, name, args, kwargs, node):
   r = getattr(ex.world, 'extra_builtin', lambda *a: None)(ex, name, args, kwargs, node)
   if r is not None:
     return r
+  if name in ('min', 'max') and len(args) == 2 and not kwargs and \
+      all(isinstance(a, VInt) for a in args):
+    a, b = args[0].e, args[1].e
+    # Python keeps the first argument on ties; for ints the value is the same either way
+    return VInt(z3.If(a <= b, a, b) if name == 'min' else z3.If(a >= b, a, b))
   raise OutOfSubset(f'builtin {name}({args})', node)
 
 
